@@ -81,6 +81,30 @@ def resolve_callable(repo, fi, expr, cfg, rd, at_node_stmt):
     if isinstance(expr, ast.IfExp):
         # kernel = a if cond else b : both alternatives
         return resolve_callable(repo, fi, expr.body, cfg, rd, at_node_stmt) + resolve_callable(repo, fi, expr.orelse, cfg, rd, at_node_stmt)
+    if isinstance(expr, ast.Subscript):
+        # kernel = TABLE[key] with TABLE a dict / tuple / list literal (local or module level): every entry is an alternative
+        tab = expr.value
+        lit = None
+        if isinstance(tab, (ast.Dict, ast.Tuple, ast.List)):
+            lit = tab
+        elif isinstance(tab, ast.Name):
+            node = cfg.node(at_node_stmt)
+            defs = rd.at(node, tab.id) - {ENTRY}
+            if len(defs) == 1:
+                st = cfg.stmt[next(iter(defs))]
+                if isinstance(st, ast.Assign) and isinstance(st.value, (ast.Dict, ast.Tuple, ast.List)):
+                    lit = st.value
+            elif not defs:
+                mod_assign = [a for a in fi.module.tree.body if isinstance(a, ast.Assign) and any(isinstance(t, ast.Name) and t.id == tab.id for t in a.targets)]
+                if len(mod_assign) == 1 and isinstance(mod_assign[0].value, (ast.Dict, ast.Tuple, ast.List)):
+                    lit = mod_assign[0].value
+        if lit is not None:
+            vals = lit.values if isinstance(lit, ast.Dict) else lit.elts
+            out = []
+            for v in vals:
+                out += resolve_callable(repo, fi, v, cfg, rd, at_node_stmt)
+            if out:
+                return out
     sym = repo.resolve_expr(fi.module, expr)
     if isinstance(sym, FuncInfo):
         if isinstance(expr, ast.Name):
